@@ -98,7 +98,9 @@ func init() {
 			}
 		}
 		// (iii) interleavings
-		texts := []string{"plain ", "<p>", "</p>\n", "a\\<%b", "50% > 40%", "{x}", "é世", "\t", "#", "\"q\"", "a\\b", "< ", " %>", "=", "x\\\\<% 1 %>y"}
+		texts := []string{"plain ", "<p>", "</p>\n", "a\\<%b", "50% > 40%", "{x}", "é世", "\t", "#", "\"q\"", "a\\b", "< ", " %>", "=", "x\\\\<% 1 %>y",
+			// literal text that is spelled like a token
+			"%>", "\\<%", "}", "{", ";", "else", "<", "%", ">"}
 		mk := func() seg {
 			switch e.Rng.Intn(14) {
 			case 0, 1, 2, 3:
@@ -162,6 +164,26 @@ func init() {
 			e.Distinct("m/" + tmpl)
 			if o.Class != "OK" || o.Out != exp {
 				e.Violate("c02-concat", fmt.Sprintf("%q rendered %q (%s %s), want %q", tmpl, o.Out, o.Class, o.Msg, exp), map[string]interface{}{"case": c, "observed": o})
+			}
+		}
+		// literal text spelled exactly like a token, alone between two tags, at top level and in every block
+		for _, w := range wrappers {
+			for _, t := range []string{"%>", "\\<%", "}", "{", "{ %>", ";", "else", "else {", "<", "%", ">", "=", "#", "<% ", "( )", "\\<%=", "\\<%#", "%>%>", "\\<%\\<%"} {
+				if strings.Contains(t, "<% ") {
+					continue // would open a real tag
+				}
+				out, _, _ := refText(t)
+				for _, form := range []string{"<%= 1 %>T<%= 2 %>", "<% let q = 1 %>T<% q = 2 %>", "T<%= 1 %>T", "<%= 1 %>T"} {
+					tmpl := w.pre + strings.ReplaceAll(form, "T", t) + w.post
+					exp := strings.ReplaceAll(strings.ReplaceAll(strings.ReplaceAll(strings.ReplaceAll(form, "<%= 1 %>", "1"), "<%= 2 %>", "2"), "<% let q = 1 %>", ""), "<% q = 2 %>", "")
+					exp = w.wpre + strings.ReplaceAll(exp, "T", out) + w.wpost
+					c := RCase{Tmpl: tmpl, Binds: []Bind{{"blk", vGo(103)}}}
+					o := e.addRenderCase("tokenlike", c)
+					e.Distinct("k/" + tmpl)
+					if o.Class != "OK" || o.Out != exp {
+						e.Violate("c02-concat", fmt.Sprintf("%q rendered %q (%s %s), want %q", tmpl, o.Out, o.Class, o.Msg, exp), map[string]interface{}{"case": c, "observed": o})
+					}
+				}
 			}
 		}
 		// a silent tag producing HTML inside a block (F6)
